@@ -116,6 +116,8 @@ class Scenario:
         if off == KEEP and self.r.random() < 0.5:
             # the deprecated alias SetHeartbeatInterval(interval, SetAsDefault, iDev) = "this interval, offset unchanged" (seed C12-12)
             self.ops.append('Q hi %d %d' % (iv, -1 if idev is None else idev))
+        elif off == 0 and idev is None and self.r.random() < 0.6:
+            self.ops.append('H %d' % iv)        # the one-argument call: the header's default offset (0) and device (all) - seed C12-16
         else:
             self.ops.append('H %d %d' % (iv, off) + ('' if idev is None else ' %d' % idev))
         for i in targets(idev, self.ndev):
@@ -496,8 +498,8 @@ def _judge(cfg, ops, per_op, sync0, sent_later):
             i = int(o[1])
             if 0 <= i < ndev:
                 devs[i].claim = t + CLAIM_MS
-        elif name == 'H' and len(o) >= 3:
-            iv, off = int(o[1]) & 0xffffffff, int(o[2]) & 0xffffffff
+        elif name == 'H' and len(o) >= 2:
+            iv, off = int(o[1]) & 0xffffffff, (int(o[2]) & 0xffffffff if len(o) > 2 else 0)      # documented default offset: 0
             idev = int(o[3]) if len(o) > 3 else None
             if not (iv == KEEP and off == 0xffff):
                 for i in targets(idev, ndev):
